@@ -476,6 +476,67 @@ def showTxt (C : HostCodec) : List ScionAddr → Str
   | [a] => showTxtEntry C a
   | a :: b :: rest => showTxtEntry C a ++ [TXT_LIST_SEP] ++ showTxt C (b :: rest)
 
+/-! ## DNS TXT record layer (`txt_record_to_string`, the loop of `ScionTxtDnsResolver::resolve` after the
+lookup, `resolve_txt_records_with_invalid`)
+
+A TXT resource record is a list of character-strings (byte strings of at most 255 bytes on the wire).  The
+code concatenates them with no separator and decodes the bytes with the *strict* `String::from_utf8`
+(`TXT_UTF8_STRICT`, extracted).  `String::from_utf8` is std's and enters as the parameter `Utf8Codec`
+(the driver instantiates it with Lean's own UTF-8 validator; the harness compares that with std's on
+every input).  Bytes are natural numbers. -/
+
+/-- `String::from_utf8` / `str::as_bytes` – a parameter -/
+structure Utf8Codec where
+  decode : List Nat → Option Str
+  encode : Str → List Nat
+
+/-- one TXT resource record: its character-strings -/
+abbrev TxtRR := List (List Nat)
+
+/-- `txt_record_to_string`: `txt_data().iter().flat_map(|chunk| chunk.iter())` then `String::from_utf8`;
+    `none` is the `InvalidEntry::new("<invalid-utf8>", …)` -/
+def txtRecordToString (U : Utf8Codec) (rr : TxtRR) : Option Str := U.decode rr.flatten
+
+/-- the `for txt in lookup.iter()` loop of `resolve`: `(txt_records, invalid_entries)`; an invalid entry
+    is represented by its `raw` text -/
+def collectTxtRecords (U : Utf8Codec) : List TxtRR → List Str × List Str
+  | [] => ([], [])
+  | rr :: rest =>
+    match txtRecordToString U rr with
+    | some s => (s :: (collectTxtRecords U rest).1, (collectTxtRecords U rest).2)
+    | none => ((collectTxtRecords U rest).1, TXT_INVALID_UTF8_RAW :: (collectTxtRecords U rest).2)
+
+/-- outcome of the record level: `Ok(valid)`, `Err(NoValidEntries { invalid_entries })` (raw texts), or
+    a panic -/
+inductive TxtResolved where
+  | ok (addrs : List ScionAddr)
+  | noValid (invalid : List Str)
+  | panic
+deriving Repr, DecidableEq
+
+/-- the `for record in records` loop of `resolve_txt_records_with_invalid` with its two accumulators;
+    `none` = a panic inside `parse_txt_payload` -/
+def resolveTxtLoop (C : HostCodec) : List Str → List ScionAddr → List Str → Option (List ScionAddr × List Str)
+  | [], valid, invalid => some (valid, invalid)
+  | record :: rest, valid, invalid =>
+    match stripPrefix TXT_PREFIX record with
+    | none => resolveTxtLoop C rest valid invalid                   -- `else { continue }`
+    | some payload =>
+      match parseTxt C payload with
+      | .ok addresses => resolveTxtLoop C rest (valid ++ addresses) invalid
+      | .err => resolveTxtLoop C rest valid (invalid ++ [record])   -- `InvalidEntry::new(record, …)`
+      | .panic => none
+
+/-- `resolve_txt_records_with_invalid` (the `tracing::info!` of ignored entries is not observable) -/
+def resolveTxtRecords (C : HostCodec) (records : List Str) (invalid : List Str) : TxtResolved :=
+  match resolveTxtLoop C records [] invalid with
+  | none => .panic
+  | some (valid, invalid') => if valid.isEmpty then .noValid invalid' else .ok valid
+
+/-- `ScionTxtDnsResolver::resolve` after the DNS lookup (no override for the domain) -/
+def resolveTxtRRs (C : HostCodec) (U : Utf8Codec) (rrs : List TxtRR) : TxtResolved :=
+  resolveTxtRecords C (collectTxtRecords U rrs).1 (collectTxtRecords U rrs).2
+
 /-! ## the socket-address splitter as it was before the repair (kept for the witness theorems)
 
 `if !bracketed_addr.starts_with('[') && bracketed_addr.ends_with(']') { return None; }` followed by
